@@ -141,15 +141,20 @@ func (k msgServer) Complete(goCtx context.Context, msg *types.MsgComplete) (*typ
 				orderList = append(orderList, &order)
 			}
 		}
-		for i, order := range orderList {
+		for _, order := range orderList {
 			newShards := make([]uint64, 0)
+			hasNewShard := false
 			for _, id := range order.Shards {
+				if id == shard.Id {
+					hasNewShard = true
+				}
 				if id != oldShard.Id {
 					newShards = append(newShards, id)
 				}
 			}
-			// first order has set new shard in shards in migrate
-			if i > 0 {
+			// the order migrate attached the new shard to, and renewal orders
+			// created since, already list it
+			if !hasNewShard {
 				newShards = append(newShards, shard.Id)
 			}
 			order.Shards = newShards
